@@ -16,11 +16,32 @@ type frameLoc struct {
 	CSort string
 	Match func(ref Term) Term // which references of the component are covered
 	Ref   *Term               // exact reference when the set is a single location (for havoc by store)
+	Cond  *Term               // the location is only in the frame when this holds (evaluated in the pre-state)
 	Text  string
 }
 
 // lvalues evaluates one `modifies` entry into the component locations it covers.
 func (c *EvalCtx) lvalues(text string) []frameLoc {
+	text = strings.TrimSpace(text)
+	if i := strings.Index(text, " if "); i >= 0 {
+		ce, err := parseExpr(text[i+4:])
+		if err != nil {
+			c.fail("%v", err)
+		}
+		cond := c.eval(ce)
+		ls := c.lvalues1(text[:i])
+		for k := range ls {
+			m := ls[k].Match
+			ls[k].Match = func(x Term) Term { return and(cond, m(x)) }
+			cc := cond
+			ls[k].Cond = &cc
+		}
+		return ls
+	}
+	return c.lvalues1(text)
+}
+
+func (c *EvalCtx) lvalues1(text string) []frameLoc {
 	u := c.u
 	text = strings.TrimSpace(text)
 	exact := func(comp, cs string, ref Term) frameLoc {
@@ -147,9 +168,22 @@ func (c *EvalCtx) lvalues(text string) []frameLoc {
 // ---------- the frame of the function under verification ----------
 
 type framePolicy struct {
-	active    bool
-	locs      []frameLoc
-	preserves []string // package names whose components may only be written at fresh references
+	active        bool
+	locs          []frameLoc
+	preserves     []string // packages whose components may only be written at fresh references
+	preservesOnly bool     // only those components are restricted (no modifies list, not pure)
+}
+
+// restricted: is a write to this component subject to a frame obligation?
+func (u *Unit) restricted(comp string) bool {
+	p := u.policy()
+	if !p.active {
+		return false
+	}
+	if p.preservesOnly {
+		return pkgMatches(u.eng.compPkg[comp], p.preserves)
+	}
+	return true
 }
 
 func (u *Unit) policy() *framePolicy {
@@ -162,10 +196,12 @@ func (u *Unit) policy() *framePolicy {
 	if c == nil {
 		return p
 	}
-	if !c.Pure && !c.HasModifies {
+	if !c.Pure && !c.HasModifies && len(c.Preserves) == 0 {
 		return p
 	}
 	p.active = true
+	p.preserves = c.Preserves
+	p.preservesOnly = !c.Pure && !c.HasModifies
 	ctx := u.newCtx(u.entry, nil)
 	for _, m := range c.Modifies {
 		if strings.HasPrefix(m.Text, "preserve ") {
@@ -186,10 +222,11 @@ func (u *Unit) frameTags() []string {
 // frameCheck: a write to (comp, ref) must be inside the declared frame or hit a fresh object.
 func (u *Unit) frameCheck(st *State, comp string, ref Term, pos token.Pos, what string) {
 	p := u.policy()
-	if !p.active {
+	if !u.restricted(comp) {
 		return
 	}
-	allowed := []Term{lt(u.entry.alloc, app("own", SInt, ref))}
+	// a write through the nil reference cannot happen (it panics first), so it needs no permission
+	allowed := []Term{lt(u.entry.alloc, app("own", SInt, ref)), eq(ref, intLit(0))}
 	for _, l := range p.locs {
 		if l.Comp == comp {
 			allowed = append(allowed, l.Match(ref))
@@ -209,6 +246,15 @@ func (u *Unit) frameStoreStruct(st *State, t types.Type, r Term, pos token.Pos) 
 	}
 	comps := map[string]string{}
 	u.structComps(t, comps)
+	any := false
+	for c := range comps {
+		if u.restricted(c) {
+			any = true
+		}
+	}
+	if !any {
+		return
+	}
 	// one obligation for the whole struct: the root reference decides (sub-objects share own())
 	allowedAll := []Term{lt(u.entry.alloc, app("own", SInt, r))}
 	// or every leaf is individually in the frame
@@ -250,6 +296,9 @@ func (u *Unit) frameAppend(st *State, comp string, base, inplace, n Term, pos to
 		return
 	}
 	if strings.HasPrefix(comp, "ea:") {
+		if p.preservesOnly && !pkgMatches(strings.TrimPrefix(comp, "ea:"), p.preserves) {
+			return
+		}
 		// struct-valued elements: frame by ownership of the backing array
 		allowed := []Term{not(inplace), lt(u.entry.alloc, app("own", SInt, base))}
 		for _, l := range p.locs {
@@ -258,6 +307,9 @@ func (u *Unit) frameAppend(st *State, comp string, base, inplace, n Term, pos to
 			}
 		}
 		u.oblige(st, "frame", pos, or(allowed...), "in-place append writes backing array", u.frameTags())
+		return
+	}
+	if !u.restricted(comp) {
 		return
 	}
 	allowed := []Term{not(inplace), eq(n, intLit(0)), lt(u.entry.alloc, app("own", SInt, base))}
@@ -282,20 +334,44 @@ func (u *Unit) frameAtReturn(st *State, x *ssa.Return, mkctx func() *EvalCtx) {}
 // ---------- the frame of a callee at a call site ----------
 
 func (u *Unit) havocFrame(st *State, pre *State, c *Contract, name string, bind func(*EvalCtx), pos token.Pos) {
+	if !c.HasModifies && len(c.Preserves) > 0 {
+		// the callee may write anything except (at existing references) components of the preserved packages
+		p := u.policy()
+		if p.active {
+			ok := p.preservesOnly
+			for _, want := range p.preserves {
+				found := false
+				for _, have := range c.Preserves {
+					if have == want {
+						found = true
+					}
+				}
+				if !found {
+					ok = false
+				}
+			}
+			u.oblige(st, "frame", pos, boolLit(ok), "call to "+shortName(name)+" preserves only "+strings.Join(c.Preserves, ", "), u.frameTags())
+		}
+		u.havocAllExcept(st, c.Preserves)
+		return
+	}
 	if !c.HasModifies {
 		u.frameCallAll(st, pos, name)
 		u.havocAll(st)
 		return
 	}
-	ctx := &EvalCtx{u: u, st: pre, bound: map[string]bool{}}
+	// evaluate every location in the state before the call, then havoc them
+	ctx := &EvalCtx{u: u, st: st, bound: map[string]bool{}}
 	bind(ctx)
+	var locs []frameLoc
 	for _, m := range c.Modifies {
 		if mentionsResult(m.Text, c.Results) {
 			continue
 		}
-		for _, l := range ctx.lvalues(m.Text) {
-			u.havocLoc(st, l, pos, name)
-		}
+		locs = append(locs, ctx.lvalues(m.Text)...)
+	}
+	for _, l := range locs {
+		u.havocLoc(st, l, pos, name)
 	}
 }
 
@@ -314,6 +390,15 @@ func mentionsResult(text string, results []string) bool {
 func (u *Unit) havocLoc(st *State, l frameLoc, pos token.Pos, name string) {
 	h := u.heapGet(st, l.Comp, l.CSort)
 	if l.Ref != nil {
+		if l.Cond != nil {
+			s2 := st.clone()
+			s2.assume(*l.Cond)
+			u.frameCheck(s2, l.Comp, *l.Ref, pos, "call to "+shortName(name))
+			// the obligation generated in the clone belongs to this unit already
+			v := u.fresh(st, "havoc_"+l.Comp, arrayElemSort(l.CSort), nil)
+			u.heapSet(st, l.Comp, ite(*l.Cond, store(h, *l.Ref, v), h))
+			return
+		}
 		u.frameCheck(st, l.Comp, *l.Ref, pos, "call to "+shortName(name))
 		v := u.fresh(st, "havoc_"+l.Comp, arrayElemSort(l.CSort), nil)
 		u.heapSet(st, l.Comp, store(h, *l.Ref, v))
@@ -459,4 +544,34 @@ func (u *Unit) callModifies(common *ssa.CallCommon, ms *modSet) {
 	for _, g := range c.GhostWrites {
 		ms.ghosts[g] = ""
 	}
+}
+
+// preservedTerm: the components of the given packages are unchanged (w.r.t. function entry) at all
+// references that existed at entry.
+func (u *Unit) preservedTerm(st *State, pkgs []string) Term {
+	if st.epoch > 0 {
+		for _, p := range pkgs {
+			found := false
+			for _, k := range st.keepPkgs {
+				if k == p {
+					found = true
+				}
+			}
+			if !found {
+				return tFalse
+			}
+		}
+	}
+	var cs []Term
+	for _, comp := range sortedKeys(st.heap) {
+		if !pkgMatches(u.eng.compPkg[comp], pkgs) {
+			continue
+		}
+		t := st.heap[comp]
+		if t.S == comp+"!0" {
+			continue
+		}
+		cs = append(cs, mk(fmt.Sprintf("(forall ((r Int)) (! (=> (<= (own r) %s) (= (select %s r) (select %s!0 r))) :pattern ((select %s r))))", u.entry.alloc.S, t.S, comp, t.S), SBool))
+	}
+	return and(cs...)
 }
